@@ -103,10 +103,12 @@ struct RowVerdict {
     exact_match: bool,
 }
 
-fn judge_row(kind: Kind, d: &[f64], y: &[f64], cfg: &Cfg, pred: f64, tol: f64) -> RowVerdict {
+fn judge_row(kind: Kind, d: &[f64], y: &[f64], classes: &[f64], cfg: &Cfg, pred: f64, tol: f64) -> RowVerdict {
     let sets = valid_sets(d, cfg.k);
     let mut v = RowVerdict { ok: false, expected: String::new(), many_sets: sets.len() > 1, plurality_tie: false, exact_match: false };
-    let mut exp: Vec<String> = Vec::new();
+    // the first valid set that explains the prediction ends the search (flags then describe the
+    // sets looked at so far); all sets are rendered only for a violation
+    let mut votes: Vec<f64> = vec![0.0; classes.len()];
     for set in &sets {
         let w = weights(d, set, cfg.distance_weighted);
         if cfg.distance_weighted && set.iter().any(|&i| d[i] == 0.0) {
@@ -119,21 +121,43 @@ fn judge_row(kind: Kind, d: &[f64], y: &[f64], cfg: &Cfg, pred: f64, tol: f64) -
                 if (pred - mean).abs() <= tol {
                     v.ok = true;
                 }
-                exp.push(format!("{:?}", mean));
             }
             Kind::Classifier => {
-                let mut classes: Vec<f64> = y.to_vec();
-                classes.sort_by(|a, b| a.partial_cmp(b).unwrap());
-                classes.dedup();
+                votes.iter_mut().for_each(|x| *x = 0.0);
+                for (&i, wi) in set.iter().zip(&w) {
+                    let c = classes.iter().position(|c| *c == y[i]).unwrap();
+                    votes[c] += *wi / wsum;
+                }
+                let max = votes.iter().cloned().fold(0.0, f64::max);
+                let mut winners = 0;
+                for (c, &vt) in classes.iter().zip(&votes) {
+                    if vt > 0.0 && vt >= max - tol {
+                        winners += 1;
+                        if *c == pred {
+                            v.ok = true;
+                        }
+                    }
+                }
+                if winners > 1 {
+                    v.plurality_tie = true;
+                }
+            }
+        }
+        if v.ok {
+            return v;
+        }
+    }
+    // violation: render what would have been acceptable
+    let mut exp: Vec<String> = Vec::new();
+    for set in &sets {
+        let w = weights(d, set, cfg.distance_weighted);
+        let wsum: f64 = w.iter().sum();
+        match kind {
+            Kind::Regressor => exp.push(format!("{:?}", set.iter().zip(&w).map(|(&i, wi)| y[i] * wi).sum::<f64>() / wsum)),
+            Kind::Classifier => {
                 let votes: Vec<f64> = classes.iter().map(|c| set.iter().zip(&w).filter(|(&i, _)| y[i] == *c).map(|(_, wi)| *wi).sum::<f64>() / wsum).collect();
                 let max = votes.iter().cloned().fold(0.0, f64::max);
                 let winners: Vec<f64> = classes.iter().zip(&votes).filter(|(_, &vt)| vt > 0.0 && vt >= max - tol).map(|(c, _)| *c).collect();
-                if winners.len() > 1 {
-                    v.plurality_tie = true;
-                }
-                if winners.contains(&pred) {
-                    v.ok = true;
-                }
                 exp.push(format!("{:?}", winners));
             }
         }
@@ -241,9 +265,12 @@ fn with_metric<T: Fl, D: Distance<Vec<T>, T>>(dist: D, data: &[Vec<f64>], y: &[f
             } else {
                 let ymax = y.iter().fold(1.0f64, |m, v| m.max(v.abs()));
                 let tol = if T::NAME == "f32" { 1e-5 } else { 1e-12 } * ymax;
+                let mut classes: Vec<f64> = y.to_vec();
+                classes.sort_by(|a, b| a.partial_cmp(b).unwrap());
+                classes.dedup();
                 for (r, q) in qs.iter().enumerate() {
                     let d: Vec<f64> = pts.iter().map(|p| dist.distance(q, p).f()).collect();
-                    let v = judge_row(cfg.kind, &d, y, cfg, pred[r], if cfg.kind == Kind::Classifier { if T::NAME == "f32" { 1e-5 } else { 1e-12 } } else { tol });
+                    let v = judge_row(cfg.kind, &d, y, &classes, cfg, pred[r], if cfg.kind == Kind::Classifier { if T::NAME == "f32" { 1e-5 } else { 1e-12 } } else { tol });
                     if v.many_sets {
                         mc::count("est_rows_with_several_valid_neighbour_sets");
                     }
